@@ -98,7 +98,7 @@ func tryReplay(repo, verif, prop string, ob *Obligation, rp map[string]interface
 		rp["replay"] = "replay could not run: " + err.Error()
 		return "none"
 	}
-	if failed && strings.Contains(out, "VIOLATION-CONFIRMED") {
+	if failed && (strings.Contains(out, "VIOLATION-CONFIRMED") || strings.Contains(out, "DATA RACE") || strings.Contains(out, "concurrent map")) {
 		rp["replay"] = "confirmed on the real code"
 		return "confirmed"
 	}
@@ -191,7 +191,7 @@ func runReplayFile(repo, verif, path string) int {
 		fmt.Fprintln(os.Stderr, "replay could not run:", err)
 		return 2
 	}
-	if failed && strings.Contains(out, "VIOLATION-CONFIRMED") {
+	if failed && (strings.Contains(out, "VIOLATION-CONFIRMED") || strings.Contains(out, "DATA RACE") || strings.Contains(out, "concurrent map")) {
 		fmt.Printf("VIOLATION property=%s replay=%s\n", prop, path)
 		return 1
 	}
